@@ -19,7 +19,7 @@ DOC = {
         'C05.R2': 'FsCommand::symlink/hardlink are called only inside closures passed to safe_remove',
         'C05.R3': 'move_copy: check_can_rename? -> mkdirs? -> unsafe_copy? -> remove(source)?, each only after the previous succeeded; a failed copy and a failed removal of the source both remove the target that this call created, and return the error',
         'C05.R4': 'move_rename: check_can_rename? -> mkdirs? -> unsafe_rename?',
-        'C05.R5': 'linux_reflink: backup clone dominates the overwrite; backup failure returns Err without touching dest; overwrite failure passes rename(tmp->dest) and returns Err; temp removed only on non-failing exits of the overwrite',
+        'C05.R5': 'linux_reflink: the destination is opened for writing before anything is created (a failure there has nothing to undo); backup clone dominates the overwrite; backup failure returns Err without touching dest; overwrite failure passes a restore (the backup cloned back into the file, else rename(tmp->dest)) and returns Err; temp removed only on non-failing exits of the overwrite or after the in-place restore; reflink(): a failure to restore time stamps / xattrs after the clone is a warning',
         'C05.R6': 'run_script counts only successes: Result<FileLen> is turned into a count only through filter_map(Result::ok)',
         'C05.R7': 'error discipline: no io::Result in dedupe.rs/reflink.rs/lock.rs is discarded (named exceptions)',
         'C05.R8': 'the temporary is a sibling: temp_file derives from path.parent() and path.file_name(), has a random suffix, and its length is bounded (file-name part clamped so that name + suffix <= 255 bytes)',
@@ -270,16 +270,28 @@ def r5(ctx, lib):
         if sl.params == {1}:
             return 'src'
         return 'p%s' % sorted(sl.params)
-    ovs = b.calls(r'reflink::reflink_overwrite$')
+    ovs = b.calls(r'reflink::reflink_overwrite$|reflink::reflink_into$')
     backup = [c for c in ovs if role5(c.args[0]) == 'dest' and role5(c.args[1]) == 'tmp']
     over = [c for c in ovs if role5(c.args[0]) == 'src' and role5(c.args[1]) == 'dest']
-    other = [c for c in ovs if c not in backup and c not in over]
+    # putting the backup back INTO the file (same inode, mode, owner, links) is the better undo; the rename of the backup over the file is the last resort
+    unclone = [c for c in ovs if role5(c.args[0]) == 'tmp' and role5(c.args[1]) == 'dest']
+    other = [c for c in ovs if c not in backup and c not in over and c not in unclone]
     for c in other:
         ctx.violation(rule, P + '|overwrite-roles', c.where(), 'reflink_overwrite(%s -> %s): unexpected roles' % (role5(c.args[0]), role5(c.args[1])))
     if not backup or not over:
         ctx.missing(rule, 'backup clone / overwrite pair in linux_reflink (found %d/%d)' % (len(backup), len(over)), b.where())
         return
     bk, ov = backup[0], over[0]
+    # the file to be overwritten is opened for writing BEFORE the backup is made: when that open fails (read-only file of another user, immutable file,
+    # a program being executed: the lock step lets these through since D41/D52) nothing has been created and nothing is undone
+    wopen = [c for c in b.calls(r'OpenOptions::open$') if role5(c.args[-1]) == 'dest']
+    early = [c for c in wopen if b.dominates(c.bb, bk.bb)]
+    ecat = err_handling(b, early[0])[0] if early else None
+    ctx.check(bool(early) and ecat in ('PROPAGATED', 'RETURNED', 'ERR-RETURNED'), rule, P + '|dest-writable-before-backup', (early[0].where() if early else bk.where()),
+              'the destination is opened for writing before the backup is made, and a failure of that open is returned with nothing to undo',
+              'the backup clone needs only read access to the duplicate; that the duplicate cannot be opened for writing is noticed after the backup exists, and the "roll-back" then renames the backup - '
+              'a new inode with mode 0666&~umask, the current time, no xattrs, one link - over the untouched original: a program being executed loses its x bit and its hard links although '
+              '"Processed 0 files"; for an immutable file the rename fails too and the backup stays behind')
     swb = switch_on_result_of(b, bk)
     ok = swb is not None and any(b.dominates(o, ov.bb) for o in swb['ok'])
     ctx.check(ok, rule, P + '|backup-before-overwrite', bk.where(), 'the backup clone (dest->tmp) succeeded on every path to the overwrite', 'the overwrite of dest is not dominated by a successful backup clone')
@@ -298,13 +310,13 @@ def r5(ctx, lib):
     if swo is None or not swo['err']:
         ctx.violation(rule, P + '|overwrite-failure', ov.where(), 'the overwrite result is not matched: no restore edge')
         return
-    rbbs = {c.bb for c in restore}
+    rbbs = {c.bb for c in restore} | {c.bb for c in unclone}
     err_reach = set()
     for e in swo['err']:
         err_reach |= b.reachable(e)
         okp, off = b.must_pass(e, lambda x: x in rbbs)
-        ctx.check(okp, rule, P + '|overwrite-failure-restores', ov.where(), 'every path from the overwrite\'s Err edge to a return passes rename(tmp->dest)',
-                  'a path from the overwrite\'s Err edge returns (bb%s) without rename(tmp->dest)' % off)
+        ctx.check(okp, rule, P + '|overwrite-failure-restores', ov.where(), 'every path from the overwrite\'s Err edge to a return passes a restore (clone tmp->dest into the file, or rename(tmp->dest))',
+                  'a path from the overwrite\'s Err edge returns (bb%s) without restoring dest from the backup' % off)
         rv = return_variants_from(b, e)
         ctx.check('Ok' not in rv and 'Err' in rv, rule, P + '|overwrite-failure-returns-err', ov.where(), 'overwrite failure returns Err', 'overwrite failure can return %s' % sorted(rv))
     for c in restore:
@@ -319,11 +331,16 @@ def r5(ctx, lib):
         r = role5(arg)
         if r == 'tmp':
             # must not run before the overwrite has been attempted unless the backup failed; never on the overwrite's Err edge
-            good = c.bb not in err_reach
-            after_ok = any(b.dominates(o, c.bb) for o in swo['ok'])
+            restored_in_place = False
+            for uc in unclone:
+                swu = switch_on_result_of(b, uc)
+                if swu is not None and any(b.dominates(o, c.bb) for o in swu['ok']):
+                    restored_in_place = True
+            good = c.bb not in err_reach or restored_in_place
+            after_ok = any(b.dominates(o, c.bb) for o in swo['ok']) or restored_in_place
             on_backup_fail = swb is not None and any(b.dominates(e, c.bb) for e in swb['err'])
             ctx.check(good and (after_ok or on_backup_fail), rule, P + '|temp-removal', c.where(),
-                      'temp removed only after a successful overwrite or after a failed backup',
+                      'temp removed only after a successful overwrite, after a successful restore into the file, or after a failed backup',
                       'temp (the only backup) can be removed on a path where the overwrite failed or has not happened yet')
         else:
             ctx.violation(rule, P + '|removes-non-temp', c.where(), 'linux_reflink removes %s' % r)
